@@ -435,6 +435,7 @@ static bool vp_pipe_has_reader(int p)
   return r;
 }
 
+static void vp_pipe_push(int p, uint8_t b);
 static void vp_pipe_push(int p, uint8_t b)
 {
   VP_MODEL_ASSERT(vp_pp_len[p] < VP_CAP, "pipe push within capacity");
@@ -644,6 +645,56 @@ void vp_new_child_params(int c)
   vp_c_steps[c] = 0;
   vp_c_pipe_in[c] = vp_c_pipe_out[c] = vp_c_pipe_err[c] = -1;
 #endif
+}
+
+/* ------------------------------------------------------------------ state builders
+ * (for harnesses that construct a started handle directly instead of running start) */
+
+/* child c exists: RUNNING, dead-but-unreaped or REAPED, with fresh symbolic behaviour */
+void vp_test_child(int c, int state)
+{
+  vp_new_child_params(c);
+  vp_c_pid[c] = (pid_t) (1000 + c);
+  vp_c_state[c] = state;
+  if (state != VP_C_RUNNING) {
+    vp_c_dead_at[c] = vp_T;
+  } else {
+    VP_ASSUME(vp_c_dead_at[c] > vp_T);
+  }
+  if (vp_nchild <= c) {
+    vp_nchild = c + 1;
+  }
+}
+
+/* a library-owned, close-on-exec pipe between the parent and child c; the parent keeps
+ * the read end (parent_reads) or the write end; `child_holds`: the child still has its
+ * end open; `len` symbolic bytes are already in the pipe. Returns the parent's descriptor. */
+int vp_test_pipe(int c, bool parent_reads, bool child_holds, int len)
+{
+  int fds[2];
+  int saved = vp_faults_left;
+  vp_faults_left = 0;
+  int r = vp_pipe(fds);
+  vp_faults_left = saved;
+  VP_MODEL_ASSERT(r == 0, "vp_test_pipe: table space");
+  vp_fd_cx[fds[0]] = true;
+  vp_fd_cx[fds[1]] = true;
+  int p = vp_of_pipe[vp_fd_ofd[fds[0]]];
+  vp_pp_born[VP_PC(p, c)] = true;
+  for (int i = 0; i < VP_CAP; i++) {
+    uint8_t b = (uint8_t) vp_byte();
+    if (i < len) {
+      vp_pipe_push(p, b);
+    }
+  }
+  if (parent_reads) {
+    vp_release(fds[1]);
+    vp_pp_cw[VP_PC(p, c)] = child_holds;
+    return fds[0];
+  }
+  vp_release(fds[0]);
+  vp_pp_cr[VP_PC(p, c)] = child_holds;
+  return fds[1];
 }
 
 /* ------------------------------------------------------------------ descriptors */
